@@ -2,6 +2,7 @@
 from .model import AnalysisError
 from .terms import SELF, FAC, NONE, show, is_const, mentions, subterms
 from .catalogue import catalogue, is_effect
+from .fieldroles import is_alarm_field, no_interval
 from .rules.common import contexts, where, short
 
 
@@ -97,10 +98,10 @@ def _pending_arm(bp, lp, reg):
         t, pol = c.term, c.pol
         while isinstance(t, tuple) and t and t[0] == "not":
             t, pol = t[1], not pol
-        if isinstance(t, tuple) and t[0] == "nonnull" and isinstance(t[1], tuple) and t[1][0] == "attr" and t[1][2] == "alarm" \
+        if isinstance(t, tuple) and t[0] == "nonnull" and isinstance(t[1], tuple) and t[1][0] == "attr" and is_alarm_field(t[1][2]) \
                 and elem_of(t[1][1], reg) and pol is True:
             return True
-        if isinstance(t, tuple) and t[0] == "attr" and t[2] == "alarm" and elem_of(t[1], reg) and pol is True:
+        if isinstance(t, tuple) and t[0] == "attr" and is_alarm_field(t[2]) and elem_of(t[1], reg) and pol is True:
             return True
     return False
 
@@ -177,9 +178,7 @@ def rearms(events, reg):
             if not arm:
                 # tolerated only for entries without retry interval (QoS 0 cannot be in a window; checked elsewhere)
                 facts = bp.st.facts if bp.st is not None else {}
-                noint = any(isinstance(k, tuple) and k[0] == "truthy" and isinstance(k[1], tuple) and k[1][0] == "attr"
-                            and k[1][2] == "interval" and v is False for k, v in facts.items())
-                if not noint:
+                if not no_interval(facts):
                     ok = False
         if ok:
             return True, lp
@@ -200,7 +199,7 @@ def cancels(events, reg):
             if not cn:
                 facts = bp.st.facts if bp.st is not None else {}
                 isnone = any(isinstance(k, tuple) and k[0] in ("nonnull", "truthy") and isinstance(k[1], tuple)
-                             and k[1][0] == "attr" and k[1][2] == "alarm" and elem_of(k[1][1], reg) and v is False
+                             and k[1][0] == "attr" and is_alarm_field(k[1][2]) and elem_of(k[1][1], reg) and v is False
                              for k, v in facts.items())
                 if not isnone:
                     ok = False
@@ -218,14 +217,14 @@ def clears(events, reg):
                 ok = False
                 continue
             evs = list(bp.walk())
-            st = [e for e in evs if e.kind == "SETATTR" and e.a["field"] == "alarm" and elem_of(e.a["obj"], reg)]
+            st = [e for e in evs if e.kind == "SETATTR" and is_alarm_field(e.a["field"]) and elem_of(e.a["obj"], reg)]
             if st:
                 if st[-1].a["val"] != NONE:
                     ok = False
                 continue
             facts = bp.st.facts if bp.st is not None else {}
             isnone = any(isinstance(k, tuple) and k[0] in ("nonnull", "truthy") and isinstance(k[1], tuple)
-                         and k[1][0] == "attr" and k[1][2] == "alarm" and elem_of(k[1][1], reg) and v is False
+                         and k[1][0] == "attr" and is_alarm_field(k[1][2]) and elem_of(k[1][1], reg) and v is False
                          for k, v in facts.items())
             if not isnone:
                 ok = False
